@@ -219,17 +219,19 @@ Proof.
   eapply H_weaken; [apply H_all_loop; lia|cbv beta; intros; lia].
 Qed.
 
-Lemma chunks_of_items_cases mx : forall items last,
-  (exists cs, chunks_of_items mx last items = Ok cs) \/ chunks_of_items mx last items = Err ChunkTooLarge.
+Lemma chunks_of_items_cases v mx : forall items last,
+  (exists cs, chunks_of_items_v v mx last items = Ok cs) \/
+  (exists e, chunks_of_items_v v mx last items = Err e /\ e <> OutOfFuel).
 Proof.
-  induction items as [|[off id] r IH]; intros last; cbn [chunks_of_items]; [left; eexists; reflexivity|].
-  destruct (mx <? sub64 off last); [right; reflexivity|].
-  destruct (IH off) as [[cs E]|E]; rewrite E; [left; eexists; reflexivity|right; reflexivity].
+  induction items as [|[off id] r IH]; intros last; cbn [chunks_of_items_v]; [left; eexists; reflexivity|].
+  destruct (match v with Fixed => off <? last | PreFix => false end); [right; eexists; split; [reflexivity|discriminate]|].
+  destruct (mx <? sub64 off last); [right; eexists; split; [reflexivity|discriminate]|].
+  destruct (IH off) as [[cs E]|[e [E He]]]; rewrite E; [left; eexists; reflexivity|right; exists e; split; [reflexivity|exact He]].
 Qed.
 
 Lemma H_index_from_reader n d : H n (index_from_reader d) (fun _ l => (l <= n)%nat).
 Proof.
-  unfold index_from_reader. eapply H_bind; [apply H_next|]. cbv beta. intros oe k Hk.
+  unfold index_from_reader_v. eapply H_bind; [apply H_next|]. cbv beta. intros oe k Hk.
   destruct oe as [e|]; [|apply H_fail; discriminate].
   destruct e; try (apply H_fail; discriminate).
   destruct (negb _); [apply H_fail; discriminate|].
@@ -237,9 +239,9 @@ Proof.
   destruct oe2 as [e2|]; [|apply H_fail; discriminate].
   destruct e2; try (apply H_fail; discriminate).
   eapply H_bind; [apply H_charge|cbv beta; intros ? ? ?].
-  destruct (chunks_of_items_cases chunk_max items 0) as [[cs E]|E]; rewrite E.
+  destruct (chunks_of_items_cases Fixed chunk_max items 0) as [[cs E]|[e [E He]]]; rewrite E.
   - hfin.
-  - apply H_fail. discriminate.
+  - apply H_fail. exact He.
 Qed.
 
 Lemma H_read_message n : H n (read_message Fixed) (fun _ l => (l + 16 <= n)%nat).
@@ -264,25 +266,28 @@ Definition arch_post (n : nat) (fresh : Prop) (r : option node * astate) (l : na
   good_last (snd r) /\ (l <= n)%nat /\ match fst r with Some _ => fresh -> (l + 16 <= n)%nat | None => True end.
 
 Lemma good_last_finish st l e :
-  good_last st -> good_last (snd (finish st l e)).
+  good_last st -> good_last (snd (finish_node st l e)).
 Proof.
-  intros Hg. unfold finish. destruct (l_payload l) as [[? ?]|]; [exact Hg|].
+  intros Hg. unfold finish_node. destruct (l_payload l) as [[? ?]|]; [exact Hg|].
   destruct (l_device l) as [[? ?]|]; [exact Hg|]. destruct (l_symlink l); exact Hg.
 Qed.
 
-Lemma fst_finish_some st l e : exists nd, fst (finish st l e) = Some nd.
+Lemma arch_post_stale n k r l' (P Q : Prop) : (k <= n)%nat -> ~ Q -> arch_post k P r l' -> arch_post n Q r l'.
 Proof.
-  unfold finish. destruct (l_payload l) as [[? ?]|]; [eexists; reflexivity|].
-  destruct (l_device l) as [[? ?]|]; [eexists; reflexivity|]. destruct (l_symlink l); eexists; reflexivity.
+  unfold arch_post. intros Hk HQ [Hg [Hl Hm]]. split; [exact Hg|]. split; [lia|].
+  destruct (fst r); [intros; contradiction|exact I].
 Qed.
 
-Lemma H_ret_finish n st l e :
+Lemma H_finish n st l e :
   good_last st -> l_entry l <> None ->
-  H n (ret (finish st l e)) (arch_post n (l_entry l = None)).
+  H n (finish st l e) (arch_post n (l_entry l = None)).
 Proof.
-  intros Hg Hne. eapply H_weaken; [apply H_ret|]. cbv beta. intros r k [-> Hk]. unfold arch_post.
-  split; [now apply good_last_finish|]. split; [exact Hk|].
-  destruct (fst (finish st l e)); [intros; contradiction|exact I].
+  intros Hg Hne. unfold finish.
+  assert (Hr : H n (ret (finish_node (mkAState (a_dir st) (a_last st) true) l e)) (arch_post n (l_entry l = None))).
+  { eapply H_weaken; [apply H_ret|]. cbv beta. intros r k [-> Hk]. unfold arch_post.
+    split; [apply good_last_finish; exact Hg|]. split; [exact Hk|].
+    destruct (fst (finish_node _ l e)); [intros; contradiction|exact I]. }
+  destruct (l_name l); [destruct (a_started st); [apply H_fail; discriminate|exact Hr]|exact Hr].
 Qed.
 
 Lemma H_archive_loop : forall fuel n st l,
@@ -293,7 +298,7 @@ Proof.
   cbn [archive_loop].
   (* one iteration: where the element comes from *)
   assert (Hsrc : H n (match a_last st with
-                      | Some c => ret (Some c, mkAState (a_dir st) None)
+                      | Some c => ret (Some c, mkAState (a_dir st) None (a_started st))
                       | None => do c <- next Fixed; ret (c, st)
                       end)
                    (fun cs k => a_last (snd cs) = None /\ (k <= n)%nat /\ (fst cs <> None -> (k < fuel)%nat) /\
@@ -345,11 +350,10 @@ Proof.
   - eapply H_weaken; [apply (Hrec Hkf); [exact Hl'|auto|auto]|]. apply Hwk. intros Hn. left. exact Hn.
   - (* Filename *)
     destruct (l_entry l) eqn:Ee.
-    + rewrite <- Ee. eapply H_weaken; [apply H_ret_finish|].
+    + eapply H_weaken; [apply H_finish|].
       * unfold wf_astate. cbn. exact I.
       * rewrite Ee. discriminate.
-      * cbv beta. unfold arch_post. intros r l' [Hgr [Hle Hm]]. split; [exact Hgr|]. split; [lia|].
-        destruct (fst r); [|exact I]. rewrite Ee. discriminate.
+      * cbv beta. intros r l'. apply arch_post_stale; [exact Hk|discriminate].
     + destruct (bad_name name); [apply H_fail; discriminate|].
       eapply H_weaken; [apply (Hrec Hkf); [exact Hl'|auto|auto]|]. apply Hwk. intros Hn. left. reflexivity.
   - (* Symlink *)
@@ -360,9 +364,8 @@ Proof.
     eapply H_weaken; [apply (Hrec Hkf); [exact Hl'|auto|auto]|]. apply Hwk. intros Hn. discriminate.
   - (* Payload *)
     destruct (l_entry l) eqn:Ee; [|apply H_fail; discriminate].
-    eapply H_weaken; [apply H_ret|]. cbv beta. intros r l' [-> Hle]. unfold arch_post.
-    split; [apply good_last_finish; exact Hg'|]. split; [lia|].
-    destruct (fst (finish _ _ _)); [|exact I]. discriminate.
+    eapply H_weaken; [apply H_finish; [exact Hg'|cbn; discriminate]|].
+    cbv beta. intros r l'. apply arch_post_stale; [exact Hk|discriminate].
   - eapply H_weaken; [apply (Hrec Hkf); [exact Hl'|auto|auto]|]. apply Hwk. intros Hn. left. exact Hn.
   - eapply H_weaken; [apply (Hrec Hkf); [exact Hl'|auto|auto]|]. apply Hwk. intros Hn. left. exact Hn.
   - eapply H_weaken; [apply (Hrec Hkf); [exact Hl'|auto|auto]|]. apply Hwk. intros Hn. left. exact Hn.
@@ -370,9 +373,8 @@ Proof.
   - eapply H_weaken; [apply (Hrec Hkf); [exact Hl'|auto|auto]|]. apply Hwk. intros Hn. left. exact Hn.
   - (* Goodbye *)
     destruct (l_entry l) eqn:Ee.
-    + eapply H_weaken; [apply H_ret|]. cbv beta. intros r l' [-> Hle]. unfold arch_post.
-      split; [apply good_last_finish; unfold wf_astate; cbn; exact I|]. split; [lia|].
-      destruct (fst (finish _ _ _)); [|exact I]. discriminate.
+    + eapply H_weaken; [apply H_finish; [unfold wf_astate; cbn; exact I|rewrite Ee; discriminate]|].
+      cbv beta. intros r l'. apply arch_post_stale; [exact Hk|discriminate].
     + eapply H_weaken; [apply (Hrec Hkf); [cbn; exact Hl'|auto|auto]|]. apply Hwk. intros Hn. left. exact Ee.
   - apply H_fail. discriminate.
   - apply H_fail. discriminate.
@@ -653,7 +655,7 @@ Section Abound.
       eapply abound_bind; [apply abound_next|cbv beta; intros oe]. afin.
     - cbv beta. intros [oe st']. cbn [fst snd].
       destruct oe as [e|]; [|apply abound_ret].
-      destruct e; repeat first
+      destruct e; unfold finish; repeat first
         [ apply abound_ret | apply abound_fail | apply IH
         | match goal with |- abound _ _ _ (match ?x with _ => _ end) => destruct x end
         | match goal with |- abound _ _ _ (if ?x then _ else _) => destruct x end ].
@@ -674,7 +676,7 @@ End Abound.
 Lemma abound_index_from_reader d0 dg : abound 3 (fun _ => d0) d0 (index_from_reader dg).
 Proof.
   assert (c3 : 1 <= 3) by lia.
-  unfold index_from_reader.
+  unfold index_from_reader_v.
   eapply abound_bind; [exact c3|apply (abound_next 3 c3 d0)|cbv beta; intros oe].
   destruct oe as [e|]; [|apply abound_fail; exact c3].
   destruct e; try (apply abound_fail; exact c3).
